@@ -209,6 +209,6 @@ FACETS = [
     Facet("small-exhaustive", check_stream, enumerate=enumerate_small, exhaustive=True,
           shards={"quick": 6, "thorough": 16}, min_nontrivial={"quick": 500, "thorough": 2000}),
     Facet("loader", check_loader, strategy=lambda tier: loader_spec(tier), case_timeout=120,
-          budget={"quick": 160, "thorough": 1200}, shards={"quick": 2, "thorough": 12},
+          budget={"quick": 480, "thorough": 1200}, shards={"quick": 3, "thorough": 12},
           min_nontrivial={"quick": 40, "thorough": 300}),
 ]
